@@ -36,10 +36,12 @@ type gen struct {
 	resetPending                    bool
 	restorePolled, restoreRequested bool
 	gotShutdown                     map[string]bool
+	execFail                        map[string]bool // extensions whose Exec currently fails
+	execFailUsed                    int
 }
 
 func newGen(r *rng.R, family string) *gen {
-	g := &gen{r: r, family: family, subs: map[string]string{}, registered: map[string]bool{}, everNext: map[string]bool{}, gotShutdown: map[string]bool{}}
+	g := &gen{r: r, family: family, subs: map[string]string{}, registered: map[string]bool{}, everNext: map[string]bool{}, gotShutdown: map[string]bool{}, execFail: map[string]bool{}}
 	names := []string{"a", "b", "c"}
 	ne := r.Intn(4)
 	if family == "noext" || family == "slowbody" {
@@ -155,6 +157,23 @@ func (g *gen) next(w *world) []string {
 	}
 	if callers > 0 && conc > 0 {
 		add(conc, "invoke", fmt.Sprint(g.nextCaller), "5", "rand")
+	}
+	if (g.family == "faults" || g.family == "chaos" || g.family == "shutdown") && callers == 0 && !liveRt {
+		// an extension file that cannot be launched (the supervisor's Exec fails) — decided while nothing runs
+		idle := true
+		for _, e := range g.cfg.exts {
+			if s.Sup.Live(e) != nil {
+				idle = false
+			}
+		}
+		for _, e := range g.cfg.exts {
+			if idle && !g.execFail[e] && g.execFailUsed < 2 {
+				add(3, "execfail", e, "on")
+			}
+			if g.execFail[e] {
+				add(25, "execfail", e, "off")
+			}
+		}
 	}
 	for _, e := range g.cfg.exts {
 		if s.Sup.Live(e) == nil {
@@ -328,6 +347,13 @@ func (g *gen) observe(ws []string, obs string) {
 	if ws[0] == "invoke" {
 		g.nextCaller++
 		g.invLeft--
+	}
+	if ws[0] == "execfail" {
+		g.execFail[ws[1]] = ws[2] == "on"
+		if ws[2] == "on" {
+			g.execFailUsed++
+		}
+		g.faults++
 	}
 	if ws[0] == "rt" && ws[1] == "next" {
 		g.rtAsked = true
